@@ -454,7 +454,7 @@ struct Runner {
     for (auto& l : logs) { scans += l.scans.size(); q += l.quiescents; for (auto& s2 : l.scans) visits += s2.visits.size(); for (auto& e : l.points) threw += e.threw; }
     st.bump("concurrent_scans", scans); st.bump("concurrent_scan_visits", visits); st.bump("quiescent_states", q); st.bump("inserts_failed_by_injected_allocation_failure", threw);
     st.bump(c.knob("keykind", 0) ? "programs_byte_string_keys" : "programs_uint64_keys");
-    if (c.knob("template", 0)) { static const char* tn[] = {"", "collapse_inner_survivor", "collapse_leaf_survivor", "prefix_split", "growth", "shrink", "leaf_split_below"}; st.bump(std::string("programs_template_") + tn[c.knob("template", 0) % 7]); }
+    if (c.knob("template", 0)) { static const char* tn[] = {"", "collapse_inner_survivor", "collapse_leaf_survivor", "prefix_split", "growth", "shrink", "leaf_split_below", "sustained_writes"}; st.bump(std::string("programs_template_") + tn[c.knob("template", 0) % 8]); }
     if (c.knob("varlen", 0)) st.bump("programs_variable_length_byte_string_keys");
     if (c.knob("varbound", 0)) st.bump("programs_scan_bounds_of_other_lengths_than_stored_keys");
   }
